@@ -402,9 +402,24 @@ func (lc *lockChecker) call(call *ast.CallExpr, st *lockState) {
 	}
 	// callee preconditions / helpers
 	if se, ok := ast.Unparen(call.Fun).(*ast.SelectorExpr); ok {
-		if fn, ok := lc.pkg.TypesInfo.Uses[se.Sel].(*types.Func); ok && fn.Pkg() == lc.pkg.Types {
+		if fn, ok := lc.pkg.TypesInfo.Uses[se.Sel].(*types.Func); ok {
 			if recv := fn.Type().(*types.Signature).Recv(); recv != nil {
-				if n := namedOf(recv.Type()); n != nil {
+				n := namedOf(recv.Type())
+				if n != nil && fn.Pkg() != lc.pkg.Types {
+					n = nil
+				}
+				// a method promoted from an embedded field (possibly of another package) is declared
+				// under the static type of the receiver expression: `requires_held core.CopyState mu W`
+				if xt := lc.pkg.TypesInfo.TypeOf(se.X); xt != nil {
+					if xn := namedOf(xt); xn != nil && xn.Obj().Pkg() == lc.pkg.Types && (n == nil || xn.Obj().Name() != n.Obj().Name()) {
+						for _, h := range lc.spec.held {
+							if h.typ == xn.Obj().Name() && h.method == fn.Name() {
+								n = xn
+							}
+						}
+					}
+				}
+				if n != nil {
 					for _, h := range lc.spec.held {
 						if h.typ != n.Obj().Name() || h.method != fn.Name() {
 							continue
@@ -686,7 +701,7 @@ func runLockset(prog *Prog, pf *PropFile) []*Obligation {
 	sort.Strings(paths)
 	for _, pp := range paths {
 		pc := prog.contracts[pp]
-		if pc.Locks == nil || len(pc.Locks.guards) == 0 || !want[shortName(pp)] {
+		if pc.Locks == nil || (len(pc.Locks.guards) == 0 && len(pc.Locks.held) == 0) || !want[shortName(pp)] {
 			continue
 		}
 		pkg := prog.pkgs[pp]
